@@ -18,6 +18,7 @@ import (
 	"github.com/plgd-dev/go-coap/v3/message/pool"
 	coapNet "github.com/plgd-dev/go-coap/v3/net"
 	"github.com/plgd-dev/go-coap/v3/net/responsewriter"
+	"github.com/plgd-dev/go-coap/v3/options/config"
 	"github.com/plgd-dev/go-coap/v3/udp/client"
 	"github.com/plgd-dev/go-coap/v3/udp/coder"
 )
@@ -212,6 +213,9 @@ type memConnOpts struct {
 	limitEndpoint int64
 	maxMsg        uint32
 	opts          []client.Option
+	// perMessageGoroutine: dispatch every received message in its own goroutine
+	// (config.ProcessReceivedMessage), so copies of one request are processed concurrently
+	perMessageGoroutine bool
 }
 
 func newMemConn(o memConnOpts) *memConn {
@@ -261,6 +265,11 @@ func newMemConn(o memConnOpts) *memConn {
 		mc.mu.Unlock()
 		if b != nil {
 			b(w, r)
+		}
+	}
+	if o.perMessageGoroutine {
+		cfg.ProcessReceivedMessage = func(req *pool.Message, cc *client.Conn, handler config.HandlerFunc[*client.Conn]) {
+			go cc.ProcessReceivedMessageWithHandler(req, handler)
 		}
 	}
 	mc.cc = client.NewConnWithOpts(mc.s, &cfg, o.opts...)
